@@ -3,8 +3,7 @@
    sumbool, sumor -> OCaml natives; andb/orb inlined).  Z, positive, N, Q, string, ascii, nat stay
    the extracted inductives: no Extract Constant / Extract Inductive of our own. *)
 Require Import ExtrOcamlBasic.
-From UomV Require Import Model.Tables Model.Conv Model.FloatM Model.Exact Model.Run.
+From UomV Require Import Model.Tables Model.Conv Model.FloatM Model.FloatOps Model.Exact
+  Model.Quantity Model.Storages Model.Run.
 Extraction Language OCaml.
-Extraction "model.ml"
-  new32 get32 rebase32 coef32 new64 get64 rebase64 coef64
-  q_new q_get q_rebase z_new z_get z_rebase coef_exact cons_exact.
+Extraction "model.ml" run32 run64 q_run z_run.
